@@ -669,6 +669,29 @@ func (cs *c03Case) cookieVariants(X, Y, Y2 *c03Login, Zs []*c03Login, S *c03Logi
 		c03Named{Name: "sibling-secret-login-cookie", Class: "foreign-secret", Cks: [][2]string{ck(S)}},
 		c03Named{Name: "sibling-secret-login-value-under-own-name", Class: "foreign-secret", Cks: [][2]string{{X.CookieName, S.CookieValue}}},
 	)
+	// characters APPENDED to a field of the own cookie (the fields stay otherwise intact): still not the cookie the proxy set
+	if f := strings.Split(X.CookieValue, "|"); len(f) == 3 {
+		app := func(name string, v0, v1, v2 string) {
+			vs = append(vs, c03Named{Name: name, Class: "appended-characters", Cks: [][2]string{{X.CookieName, v0 + "|" + v1 + "|" + v2}}})
+		}
+		app("own-signature+alphabet-char", f[0], f[1], f[2]+"A")
+		app("own-signature+padding-char", f[0], f[1], f[2]+"=")
+		app("own-signature+non-alphabet-char", f[0], f[1], f[2]+"!")
+		app("own-signature+AAAA", f[0], f[1], f[2]+"AAAA")
+		app("own-signature+x=", f[0], f[1], f[2]+"x=")
+		app("own-signature+dot-dot", f[0], f[1], f[2]+"..")
+		app("own-timestamp+digit", f[0], f[1]+"0", f[2])
+		app("own-timestamp+leading-zero", f[0], "0"+f[1], f[2])
+		app("own-timestamp+leading-plus", f[0], "+"+f[1], f[2])
+		app("own-value-field+alphabet-char", f[0]+"A", f[1], f[2])
+		app("own-value-field+padding-char", f[0]+"=", f[1], f[2])
+		app("own-value-field+AAAA", f[0]+"AAAA", f[1], f[2])
+		vs = append(vs,
+			c03Named{Name: "own+trailing-pipe", Class: "appended-characters", Cks: [][2]string{{X.CookieName, X.CookieValue + "|"}}},
+			c03Named{Name: "own+leading-pipe", Class: "appended-characters", Cks: [][2]string{{X.CookieName, "|" + X.CookieValue}}},
+			c03Named{Name: "own+trailing-pipe-and-field", Class: "appended-characters", Cks: [][2]string{{X.CookieName, X.CookieValue + "|x"}}},
+		)
+	}
 	otherName := Y.CookieName
 	if otherName == X.CookieName { // single shared name: use a per-request style name and the bare prefix instead
 		otherName = X.Inst.P.Opts.Cookie.Name + "_" + X.Nonce[:8] + "_csrf"
@@ -790,7 +813,7 @@ func c03Configs(thorough bool, seed int64) []c03Cfg {
 func TestVerif_C03(t *testing.T) {
 	run := vfNewRun(t, "C03", "exploration")
 	run.SetRule("Part A: per configuration 2 browsers x 3 interleaved logins (start?rd= / protected URL) on the main instance plus logins on a sibling with another cookie secret and on a sibling with the opposite --encode-state; " +
-		"every login X x ~40 presented-cookie sets (own, other login, other browser, tampered value/timestamp/signature, re-signed/re-encrypted with the sibling secret, absent, own+other in both orders, values under foreign names, duplicate names) x 26 state variants " +
+		"every login X x ~55 presented-cookie sets (own, other login, other browser, tampered value/timestamp/signature, characters appended to each field / trailing '|', re-signed/re-encrypted with the sibling secret, absent, own+other in both orders, values under foreign names, duplicate names) x 26 state variants " +
 		"(verbatim, redirect changed, nonce of another login, truncated, empty, nonce prefix/extension/changed char, encoding mismatch), received by the main and both sibling instances. " +
 		"Part B: real cookie jars, 1-3 logins per browser, all completion permutations and seeded random start/complete/replay walks. " +
 		"cell = (csrf-per-request, encode-state, PKCE, skip-nonce, receiver, cookie class, state class, expected) ; non-trivial = every callback (each needs a started login)")
